@@ -155,7 +155,7 @@ func properties() map[string]*PropertySpec {
 		Outside:   []string{"more than 3 connections / 2 requests each; more than 2^63 accepts", "the inductive step from an arbitrary counter value is replaced by 3 unrolled iterations under every spawn-order schedule (which is what separates the per-iteration copy from the loop variable)"},
 		Harnesses: []HarnessSpec{
 			eng("H_C09_ids", "ids", "1..2 connections x 1..2 requests, every child-first/spawner-first choice at each go statement", "quick"),
-			eng("H_C09_ids3", "ids", "1..3 connections x 1..2 requests, every child-first/spawner-first choice at each go statement", "thorough"),
+			eng("H_C09_ids3", "ids", "1..3 connections x 1..2 requests; child-first/spawner-first explored for the connection goroutines only", ""),
 		}})
 	add(&PropertySpec{ID: "C11",
 		Functions: "(*Server).Stop, (*Server).Run, Run$1 incl. the shutdown watcher, (*conn).serveRequests (shutdown branch), (*conn).close",
@@ -185,7 +185,7 @@ func properties() map[string]*PropertySpec {
 		Outside:   []string{"more than 2 (quick) / 3 (thorough) user entries, 2 attributes x 2 values each", "transport independence (plain / TLS / StartTLS) follows from C13 and C18: the handler never touches the connection", "controls attached to successful binds (SetControls) are not part of the statement"},
 		Harnesses: []HarnessSpec{
 			td("H_TD_C19_bind", "bind answered", "<= 2 users x <= 2 attributes x <= 2 values, all names/values/DNs/passwords unbounded symbolic strings (duplicate DNs, prefix DNs, missing or empty password attributes included), both AllowAnonymousBind settings", "quick"),
-			td("H_TD_C19_bind3", "bind answered", "as quick with <= 3 users", "thorough"),
+			td("H_TD_C19_bind3", "bind answered", "<= 3 users (first with <= 2 attributes x <= 2 values, the others <= 1 x <= 1)", "thorough"),
 		}})
 	add(&PropertySpec{ID: "C20",
 		Functions: "(*Directory).handleAdd, handleModify, handleDelete, handleSearchUsers closures, find, match, gldap.NewEntry, NewEntryAttribute, AddValue; requests produced by the real newRequest, responses decoded from the bytes written",
